@@ -66,7 +66,23 @@ def values(kind, tier):
 
 
 def shards(tier):
-    return [{'kind': k, 'u': u} for k in si.KINDS for u in si.UNITS[k]]
+    out = [{'kind': k, 'u': u} for k in si.KINDS for u in si.UNITS[k]]
+    # the same enumeration in a process that has already simulated (complete, stopped and aborted runs): one unit per kind
+    out += [{'kind': k, 'u': si.UNITS[k][-1], 'disturbed': True} for k in si.KINDS]
+    return out
+
+
+def probe():
+    """A handful of comparisons and conversions (called from inside a running simulation's load function)."""
+    bad = []
+    a, b = gu.Length(1, 'm'), gu.Length(1000.00001, 'mm')
+    if a == b or not (a < b) or (b <= a):
+        bad.append('Length(1 m) vs Length(1000.00001 mm) compared as equal / wrongly ordered')
+    if gu.AngularSpeed(3000, 'rpm') != gu.AngularSpeed(50, 'rps'):
+        bad.append('3000 rpm != 50 rps')
+    if si.ulps_apart(float(gu.Torque(2.5, 'kgfcm').to('Nm').value), si.convert(2.5, 'Torque', 'kgfcm', 'Nm')) > 4:
+        bad.append('kgfcm -> Nm factor')
+    return bad
 
 
 def nudge(x, k):
@@ -234,6 +250,15 @@ def check_chain(acc, kind, u, v, w, x):
 
 
 def run_shard(shard, tier):
+    if shard.get('disturbed'):
+        from gmc import sim
+        inside = sim.disturb_process(probe)
+        acc = run_shard({k: v for k, v in shard.items() if k != 'disturbed'}, tier)
+        for f in inside + probe():
+            acc.violation('C05/probe', 'conversion and comparison laws', {'kind': 'shard', 'shard': shard}, {'failure': f})
+        acc.relabel('/after-simulations-in-this-process', shard)
+        acc.sample({'mode': 'same enumeration after complete, stopped and aborted simulations in this process', 'kind': shard['kind']})
+        return acc
     acc = Acc()
     kind, u = shard['kind'], shard['u']
     for v in si.UNITS[kind]:
